@@ -1,1 +1,2 @@
 pub mod forget;
+pub mod probe;
